@@ -121,6 +121,9 @@ def hSysU : Handler := fun impl => do
   let _rawQuery ← pBytes
   let decodedPath ← pBytes
   let script ← pList pOrigin
+  -- reload mode (absent in witness streams): 1 = the rules were loaded over a sibling set before the request,
+  -- 2 = a sibling set is loaded while the request is with its first destination
+  let reloadMode ← (pNat <|> pure 0)
   if ¬ rcs.all (·.valid) then return { model := "err:rules", label := "rules-rejected" }
   if flag = 4 then
     -- rrrouter's own matched string (completeURL → destinationString → url.Parse) is not the
@@ -211,6 +214,12 @@ def hSysU : Handler := fun impl => do
             | c0 :: rest => if rest.all (fun c => c.method == c0.method && c.body == c0.body) then [] else ["bad:C20:copy-and-proxy-destination-receive-different-requests"]
             | [] => [])
          else [])
+      -- C19: a request is handled under the rules that were loaded when it arrived - all of it (mode 2), and under the
+      -- rules loaded LAST when the reload came first (mode 1): with a reload in the case, any deviation from the
+      -- behaviour under `rs` alone is a request handled (partly) under another version of the rules
+      let cmpImpl := " ".intercalate (impl.takeWhile (· ≠ "||"))
+      let routed := bad.any fun b => b.startsWith "bad:C01" || b.startsWith "bad:C05" || b.startsWith "bad:C02"
+      let bad := if reloadMode ≠ 0 ∧ (routed ∨ cmpImpl ≠ model) then bad ++ ["bad:C19:request-not-handled-under-one-version-of-the-rules"] else bad
       if bad.isEmpty then "ok" else ",".intercalate bad
   let label :=
     (match rr with
